@@ -522,8 +522,22 @@ package helper
 //@ loop#0 invariant len(record) == len(c.columns)
 //@ loop#1 invariant len(record) == len(c.columns)
 
+// ---- ghost file system of CSV snapshot files (C10): view(csvfs) maps a file name to the rows the file holds ---------
+// What the reflection-based codec leaves in / reads from a file is outside the verifier's subset: the three clauses
+// kinds below marked `assumes` / `trusted` are assumptions (listed in the evidence); everything built on them - which
+// file, append or replace, filtering, last row - is proved.
+//@ func ReadFromCsvFile
+//@ trusted reflection-based CSV codec (decidable core: C11): reading a file yields the rows it holds, in order
+//@ ensures[C10] (result1 == nil) == has(view(csvfs), fileName)
+//@ ensures[C10] result1 == nil ==> consumed(result0) == 0 && closed(result0) && len(result0) == len(view(csvfs)[fileName])
+//@ ensures[C10] result1 == nil ==> (forall k :: 0 <= k && k < len(result0) ==> result0[k] == view(csvfs)[fileName][k])
+//@ ensures[C10] result1 != nil ==> len(result0) == 0
+
 //@ func Csv.WriteToFile
 //@ requires consumed(rows) == 0
+//@ modifies csvfs
+//@ assumes[C10] "file-holds-exactly-the-rows-written" result == nil ==> has(view(csvfs), fileName) && consumed(rows) == len(rows) && len(view(csvfs)[fileName]) == len(rows) && (forall k :: 0 <= k && k < len(rows) ==> view(csvfs)[fileName][k] == rows[k])
+//@ assumes[C10] "other-files-untouched" forall n str :: n != fileName ==> has(view(csvfs), n) == old(has(view(csvfs), n)) && sameslice(view(csvfs)[n], old(view(csvfs)[n]))
 //@ guarantees[C11] "write-replaces-previous-content" result == nil ==> ftrunc(res(os_OpenFile, 0, 0)) == 1 && fappend(res(os_OpenFile, 0, 0)) == 0
 
 //@ func NewCsv
@@ -533,11 +547,21 @@ package helper
 // file that os.Stat found with content (FileSystemRepository.Append relies on this)
 //@ func AppendOrWriteToCsvFile
 //@ requires consumed(rows) == 0
+//@ modifies csvfs
+//@ ensures[C10] "rows-follow-the-rows-already-there" result == nil ==> has(view(csvfs), fileName) && consumed(rows) == len(rows) && len(view(csvfs)[fileName]) == (old(has(view(csvfs), fileName)) ? old(len(view(csvfs)[fileName])) : 0) + len(rows)
+//@ ensures[C10] "existing-rows-kept" result == nil && old(has(view(csvfs), fileName)) ==> (forall k :: 0 <= k && k < old(len(view(csvfs)[fileName])) ==> view(csvfs)[fileName][k] == old(view(csvfs)[fileName][k]))
+//@ ensures[C10] "new-rows-in-order" result == nil ==> (forall k :: 0 <= k && k < len(rows) ==> view(csvfs)[fileName][(old(has(view(csvfs), fileName)) ? old(len(view(csvfs)[fileName])) : 0) + k] == rows[k])
+//@ ensures[C10] "other-files-untouched" forall n str :: n != fileName ==> has(view(csvfs), n) == old(has(view(csvfs), n)) && sameslice(view(csvfs)[n], old(view(csvfs)[n]))
 //@ guarantees[C10,C11] "header-less-append-only-to-a-file-with-content" ncalled(Csv_AppendToFile) > 0 ==> res(os_Stat, 0, 1) == nil && res(fs_FileInfo_Size, 0) > 0
 //@ guarantees[C10,C11] "one-write" result == nil ==> ncalled(Csv_AppendToFile) + ncalled(Csv_WriteToFile) == 1
 
 //@ func Csv.AppendToFile
 //@ requires consumed(rows) == 0
+//@ modifies csvfs
+//@ assumes[C10] "rows-appended-to-an-existing-file" result == nil && old(has(view(csvfs), fileName)) ==> has(view(csvfs), fileName) && consumed(rows) == len(rows) && len(view(csvfs)[fileName]) == old(len(view(csvfs)[fileName])) + len(rows)
+//@ assumes[C10] "existing-rows-kept" result == nil && old(has(view(csvfs), fileName)) ==> (forall k :: 0 <= k && k < old(len(view(csvfs)[fileName])) ==> view(csvfs)[fileName][k] == old(view(csvfs)[fileName][k]))
+//@ assumes[C10] "new-rows-in-order" result == nil && old(has(view(csvfs), fileName)) ==> (forall k :: 0 <= k && k < len(rows) ==> view(csvfs)[fileName][old(len(view(csvfs)[fileName])) + k] == rows[k])
+//@ assumes[C10] "other-files-untouched" forall n str :: n != fileName ==> has(view(csvfs), n) == old(has(view(csvfs), n)) && sameslice(view(csvfs)[n], old(view(csvfs)[n]))
 //@ guarantees[C11] "append-keeps-existing-rows" result == nil ==> fappend(res(os_OpenFile, 0, 0)) == 1 && ftrunc(res(os_OpenFile, 0, 0)) == 0
 
 
